@@ -39,14 +39,19 @@ normalize_whitespace = \
 
            <!-- Template for normalizing space in text nodes, with specific exclusions -->
            <xsl:template match="text()[not(ancestor::markup or ancestor::literalLayout or ancestor::objectName or ancestor::attributeName or ancestor::para)]">
-               <xsl:value-of select="normalize-space(.)"/>
+               <xsl:value-of select="normalize-space(translate(., '&#160;', ' '))"/>
+           </xsl:template>
+
+           <!-- Excluded text nodes are preserved, apart from non-breaking spaces written as character references -->
+           <xsl:template match="text()[ancestor::markup or ancestor::literalLayout or ancestor::objectName or ancestor::attributeName or ancestor::para]">
+               <xsl:value-of select="translate(., '&#160;', ' ')"/>
            </xsl:template>
 
            <!-- Template to normalize space in attribute values -->
            <xsl:template match="@*">
                <!-- Create a new attribute with the same name but normalized value -->
                <xsl:attribute name="{name()}">
-                   <xsl:value-of select="normalize-space(.)"/>
+                   <xsl:value-of select="normalize-space(translate(., '&#160;', ' '))"/>
                </xsl:attribute>
            </xsl:template>
        </xsl:stylesheet>"""
